@@ -505,6 +505,11 @@ def r_prov(ctx) -> RuleResult:
             pick = {"-1", "0"} if kws and all(want in k for k in kws) else set()
             ok = all(want in k for k in kws) and idx <= ({"3"} | pick) and (bool(kws) or bool(idx) or not from_file)
             if ev.key != "mass" and idx - pick:
+                if kws and all(want in k for k in kws) and (idx - pick) <= {"3"}:
+                    # its own KEY= tokens and the type token meet in one abstract value: one statement stores several attributes
+                    # (the mass of D / T among them) and the analysis does not keep them apart -- no evidence of a wrong source
+                    raise AnalysisError(f"R-PROV: V3000: `{short(ev.node, 60)}` stores `{ev.key}` from its {want}= tokens and, in the same abstract value, the type token "
+                                        "(one statement stores several attributes); the analysis cannot keep them apart")
                 ok = False
             why = f"tokens selected by {sorted(kws)} / positions {sorted(idx)} -> `{ev.key}` (allowed: {want}=… tokens" + ("; type token for D/T)" if ev.key == "mass" else ")")
         res.inst(ev.fi.fq, f"V3000 {ev.key} <- {short(ev.node, 70)}", "ok" if ok else "fail", detail=why)
@@ -1505,6 +1510,8 @@ def r_supersede(ctx) -> RuleResult:
         (["M  ISO  1   1  13", "V    1 0.731", "M  RAD  1   2   2"], {0: {}, 1: {}}, {0: {mass_k: 13}, 1: {rad_k: 2}}, "an atom value line between two read lines changes nothing"),
         (["M  STY  1   1 SUP", "M  SAL   1  2   1   2", "M  RAD  1   2   2"], {0: {}, 1: {}}, {0: {}, 1: {rad_k: 2}}, "lines of other M properties before the radical line change nothing"),
         (["G    1   2", "Ph", "M  CHG  1   1  -1"], {0: {}, 1: {}}, {0: {chg_k: -1}, 1: {}}, "a group abbreviation (two lines) before the charge line changes nothing"),
+        (["M  CHG  2   1   0   2  -1"], {0: {}, 1: {}}, {0: {}, 1: {chg_k: -1}}, "an explicit 0 for one atom does not end the line: the entry after it counts"),
+        (["M  ISO  2   1   0   2  13", "M  RAD  2   1   0   2   2"], {0: {}, 1: {}}, {0: {}, 1: {mass_k: 13, rad_k: 2}}, "entries after an explicit 0, on two lines"),
     ]
     n_followed = 0
     for lines_, atoms_in, want_, what_ in cases:
@@ -2800,6 +2807,8 @@ def r_listensample(ctx) -> RuleResult:
         (f"C//(2:{key0}=13)", [("C", 1)], [], [(2, 13)]),
         (f"C2H/(1-2)(1-3)/(4:{key0}=2)", [("C", 2), ("H", 1)], [(1, 2), (1, 3)], [(4, 2)]),
         ("H2/(1-2)(2-5)", [("H", 2)], [(1, 2), (2, 5)], []),
+        ("CH4/(1-6)(2-5)", [("C", 1), ("H", 4)], [(1, 6), (2, 5)], []),        # the dangling end is not in the pair that compares largest
+        ("CH4/(6-1)(2-5)(3-5)", [("C", 1), ("H", 4)], [(6, 1), (2, 5), (3, 5)], []),
     ]
     valid = [
         (f"C2/(1-2)/(2:{key0}=13)", [("C", 2)], [(1, 2)], [(2, 13)]),
